@@ -32,14 +32,37 @@ def _variants(ctx):
     return v
 
 
+_MISSING = object()
+
+
+def _unc(atom):
+    """The mass uncertainty lives in the private attribute `_mass_unc` (the property's own observation point;
+    there is no public accessor): optional - _MISSING when a refactored tree keeps it elsewhere."""
+    return getattr(atom, '_mass_unc', _MISSING)
+
+
+def _scribble(ctx, what, fn):
+    """Overwrite private storage slots of a private table (history for the reload / after-mutation variants);
+    a tree that stores the values elsewhere merely makes that history weaker."""
+    try:
+        fn()
+    except Exception as exc:  # noqa - optional instrumentation
+        ctx.count('anchor_missing.history.' + what)
+        ctx.note('history step %r could not overwrite the private storage slots (%s: %s); the variant is swept '
+                 'without that mutation' % (what, type(exc).__name__, exc))
+
+
 def setup(ctx):
     import periodictable as pt
     from periodictable import core, mass, density, util
     from ..ref.masses import MassModel
     _state['model'] = MassModel()
     _state['NA'] = pt.constants.avogadro_number
-    reach = Reach().watch(util.parse_uncertainty, 'parse_uncertainty').watch(mass.init, 'mass.init') \
-        .watch(density.init, 'density.init').start()
+    reach = Reach()
+    parser = getattr(util, 'parse_uncertainty', None)
+    if getattr(parser, '__code__', None) is not None:
+        reach.watch(parser, 'parse_uncertainty')
+    reach.watch(mass.init, 'mass.init').watch(density.init, 'density.init').start()
     tables = {'public': pt.elements}
     T = core.PeriodicTable('c06_fresh_%d' % ctx.shard)
     mass.init(T)
@@ -59,8 +82,19 @@ def setup(ctx):
                                            'abundance_lines': m.abundance_lines,
                                            'composition_blocks': len(m.abundance),
                                            'density_entries': len(m.density)}
+    ctx.count('reach.mass.init', reach.counts['mass.init'])
+    ctx.count('reach.density.init', reach.counts['density.init'])
+    ctx.require('reach.mass.init', 1, 'the private table must have been filled by mass.init while observed')
     if reach.counts['parse_uncertainty'] >= expected:
         ctx.count('reach.rows_parsed_by_loader', reach.counts['parse_uncertainty'])
+    else:
+        # how often a correct loader calls its row parser is not fixed by the property: a loader that parses the
+        # embedded tables once and memoises the records (or uses another parser) is legitimate.  The counter is
+        # evidence only; every value of the private table is compared with the reference reader anyway.
+        ctx.count('anchor_missing.reach.rows_parsed_by_loader')
+        ctx.note('mass.init(T) called util.parse_uncertainty %d times while observed (%d rows in the tables): the '
+                 'loader does not parse row by row per table (memoised / other parser); reach requirement waived, '
+                 'the exhaustive value comparison stands' % (reach.counts['parse_uncertainty'], expected))
     ctx.require('reach.rows_parsed_by_loader', expected,
                 'mass.init(T) must be observed reading every row (2*isotope rows + weights + abundances)')
     if ctx.thorough():
@@ -76,9 +110,11 @@ def setup(ctx):
         T3 = core.PeriodicTable('c06_reload_%d' % ctx.shard)
         mass.init(T3)
         density.init(T3)
-        T3.Fe._mass = 1.0
-        T3.Fe[56]._abundance = 3.0
-        T3.Fe._density = 99.
+        def overwrite_three():
+            T3.Fe._mass = 1.0
+            T3.Fe[56]._abundance = 3.0
+            T3.Fe._density = 99.
+        _scribble(ctx, 'private_reload', overwrite_three)
         mass.init(T3, reload=True)
         density.init(T3, reload=True)
         tables['private_reload'] = T3   # reload must restore the tabulated values
@@ -86,12 +122,14 @@ def setup(ctx):
         T4a = core.PeriodicTable('c06_mut_%d' % ctx.shard)
         mass.init(T4a)
         density.init(T4a)
-        for el in T4a:
-            el._mass = (el._mass or 0) + 1
-            el._density = 1.2345
-            for iso in el:
-                iso._mass += 1
-                iso._abundance = 50.
+        def overwrite_all():
+            for el in T4a:
+                el._mass = (el._mass or 0) + 1
+                el._density = 1.2345
+                for iso in el:
+                    iso._mass += 1
+                    iso._abundance = 50.
+        _scribble(ctx, 'private_after_mutation', overwrite_all)
         T4 = core.PeriodicTable('c06_aftermut_%d' % ctx.shard)
         mass.init(T4)
         density.init(T4)
@@ -132,8 +170,11 @@ def check_element(ctx, case):
     ctx.distinct_case((tname, Z, 'weight'))
     if el.mass != em:
         ctx.violation('mass of %s is %r, table %r' % (el, el.mass, em), field='element.mass')
-    if not ctx.close(el._mass_unc, eu, rel=1e-15):
-        ctx.violation('mass uncertainty of %s is %r, table %r' % (el, el._mass_unc, eu), field='element._mass_unc')
+    el_unc = _unc(el)
+    if el_unc is _MISSING:
+        ctx.count('skipped.mass_uncertainty.private_attribute_absent')
+    elif not ctx.close(el_unc, eu, rel=1e-15):
+        ctx.violation('mass uncertainty of %s is %r, table %r' % (el, el_unc, eu), field='element._mass_unc')
     # density of the element
     sym = el.symbol
     rho = m.density.get(sym, 'absent')
@@ -171,8 +212,11 @@ def check_element(ctx, case):
         ctx.evaluated(2, 'isotope-mass')
         if iso.mass != im:
             ctx.violation('mass of %s[%d] is %r, table %r' % (sym, A, iso.mass, im), field='isotope.mass', A=A)
-        if not ctx.close(iso._mass_unc, iu, rel=1e-15):
-            ctx.violation('mass uncertainty of %s[%d] is %r, table %r' % (sym, A, iso._mass_unc, iu),
+        iso_unc = _unc(iso)
+        if iso_unc is _MISSING:
+            ctx.count('skipped.mass_uncertainty.private_attribute_absent')
+        elif not ctx.close(iso_unc, iu, rel=1e-15):
+            ctx.violation('mass uncertainty of %s[%d] is %r, table %r' % (sym, A, iso_unc, iu),
                           field='isotope._mass_unc', A=A)
         ctx.evaluated(what='abundance')
         if Z == 0:
@@ -234,7 +278,9 @@ def check_element(ctx, case):
         ctx.evaluated(2, 'composition')
         if abs(total - 100) > 1e-9:
             ctx.violation('abundances of %s sum to %r' % (sym, total), field='abundance-sum')
-        sigma = abs(weight - el.mass) / el._mass_unc if el._mass_unc else (0 if weight == el.mass else math.inf)
+        # "within the stated uncertainty": the library's own value when it is observable, else the table's
+        unc = eu if el_unc is _MISSING else el_unc
+        sigma = abs(weight - el.mass) / unc if unc else (0 if weight == el.mass else math.inf)
         ctx.observe('atomic_weight_vs_isotopes.sigma', sigma)
         if sigma > 1.0:
             ctx.violation('atomic weight of %s %r differs from abundance-weighted isotope mass %r by %.3g sigma'
